@@ -394,6 +394,8 @@ def run_family(tier, seed, binary=None):
             failing.setdefault(tr, {"id": tr, "kind": "table",
                                     "rows": [{"id": x["id"], "kind": x["kind"], "segs": x["segs"], "inst": x["inst"]} for x in rows_]})
     allfails = [f for f in fails + tfails if f[2] != "CONF"]
+    # C44 is the packet family's property; here its clauses are a diagnostic (reported, never judged by this family's checks)
+    c44 = collections.Counter(f[3] for f in allfails if f[2] == "C44")
     sample = None
     for tf in tfiles:
         lines = [json.loads(l) for l in open(tf).readlines()[:12]]
@@ -402,7 +404,7 @@ def run_family(tier, seed, binary=None):
             sample = {"schedule_id": first, "trace_prefix": [slim(x) for x in lines if x["tr"] == first][:8]}
             break
     result.update({"tier": tier, "seed": seed, "traces": len(scheds), "steps": steps, "table_rows": rows, "fails": allfails,
-                   "coverage": dict(cov), "sigs": sigs, "failing_schedules": failing, "sample": sample, "conformance_diffs": dict(conf),
+                   "coverage": dict(cov), "sigs": sigs, "failing_schedules": failing, "sample": sample, "conformance_diffs": dict(conf), "c44_diagnostic": dict(c44),
                    "case_counts": counts, "wall": time.time() - t0})
     return result
 
@@ -456,17 +458,27 @@ def match_known(fail, schedule, known):
     return None
 
 
+PROBE_TEXT = {
+    "C33": (PROBE["id"], "native base denomination 'lp/pooltoken-1/share' (hop-shaped segment pair): %s at step %d of the probe A->B->A; "
+            "the returned voucher is not released from escrow (types/denom.go ExtractDenomFromPath re-splits the base, "
+            "keeper/relay.go OnRecvPacket then unescrows ibc/HASH instead of the native name)"),
+    "C30": (PROBE_SPOOF["id"], "native token of A named 'transfer/channel-0/uatomb' (a voucher path of the channel it is sent over): %s at step %d; "
+            "B releases real uatomb from its escrow for it, leaving A's vouchers of uatomb unbacked "
+            "(types/denom.go ExtractDenomFromPath + keeper/relay.go OnRecvPacket HasPrefix branch)"),
+}
+
+
 def probe_known(pid, known, result):
     lines = []
     for k in _known(known):
         if k.get("property") != pid or k.get("family", FAMILY) != FAMILY or k.get("signature", {}).get("class") != KF_CLASS:
             continue
-        hits = [f for f in result.get("fails", []) if f[0] == PROBE["id"] and f[2] == pid]
+        if pid not in PROBE_TEXT:
+            continue
+        probe_id, text = PROBE_TEXT[pid]
+        hits = [f for f in result.get("fails", []) if f[0] == probe_id and f[2] == pid]
         if hits:
-            lines.append("KNOWN-FINDING: property=%s id=%s native base denomination 'lp/pooltoken-1/share' (hop-shaped segment pair): %s "
-                         "at step %d of the probe A->B->A; the returned voucher is not released from escrow "
-                         "(types/denom.go ExtractDenomFromPath splits the base, keeper/relay.go OnRecvPacket unescrows ibc/HASH)"
-                         % (pid, k.get("id"), hits[0][3], hits[0][1]))
+            lines.append("KNOWN-FINDING: property=%s id=%s " % (pid, k.get("id")) + text % (hits[0][3], hits[0][1]))
         else:
             lines.append("NOTICE: known finding %s (property=%s) no longer reproduces on this tree" % (k.get("id"), pid))
     return lines
@@ -489,5 +501,6 @@ def evidence(pid, res):
         "case_counts": res.get("case_counts"),
         "coverage_by_action": {k: v for k, v in sorted(res.get("coverage", {}).items())},
         "conformance_diffs_diagnostic": res.get("conformance_diffs", {}),
+        "c44_export_import_diagnostic": res.get("c44_diagnostic", {}),
         "exhaustive": False,
     }
